@@ -261,6 +261,10 @@ pub struct LandSpec {
     pub holes: f64,
     /// invalid cells report Some(NaN) (like an LJ state with coincident particles) instead of None
     pub nan_holes: bool,
+    /// pits: a hash-chosen 30 % of the quantised cells (and, for odd salts, the start's cell) score
+    /// lower by this depth (1e16 .. 1e300): scores of wildly different magnitude in one landscape,
+    /// so that any bookkeeping done with differences instead of scores loses the small ones
+    pub abyss: Option<f64>,
 }
 
 impl LandSpec {
@@ -274,6 +278,7 @@ impl LandSpec {
             .set("cliff", J::opt_f64bits(self.cliff))
             .set("holes", J::f64bits(self.holes))
             .set("nan_holes", J::Bool(self.nan_holes))
+            .set("abyss", J::opt_f64bits(self.abyss))
     }
     pub fn from_json(j: &J) -> Result<LandSpec, String> {
         Ok(LandSpec {
@@ -289,10 +294,11 @@ impl LandSpec {
             cliff: j.get("cliff").and_then(|x| x.as_f64bits()),
             holes: j.get("holes").and_then(|x| x.as_f64bits()).unwrap_or(0.0),
             nan_holes: j.get("nan_holes").and_then(|x| x.as_bool()).unwrap_or(false),
+            abyss: j.get("abyss").and_then(|x| x.as_f64bits()),
         })
     }
     pub fn simple(kind: &str, salt: u64) -> LandSpec {
-        LandSpec { kind: kind.into(), salt, quantum: 0.1, amp: 1.0, ladder: vec![], cliff: None, holes: 0.0, nan_holes: false }
+        LandSpec { kind: kind.into(), salt, quantum: 0.1, amp: 1.0, ladder: vec![], cliff: None, holes: 0.0, nan_holes: false, abyss: None }
     }
 }
 
@@ -373,7 +379,7 @@ impl Landscape {
                 }
             }
         }
-        let need_hash = self.spec.holes > 0.0 || self.spec.kind == "rugged";
+        let need_hash = self.spec.holes > 0.0 || self.spec.kind == "rugged" || self.spec.abyss.is_some();
         let ch = if need_hash { self.cell_hash(p) } else { 0 };
         if self.spec.holes > 0.0 && ch != self.start_cell_hash {
             let mut s = ch ^ 0x5555_aaaa_5555_aaaa;
@@ -381,7 +387,18 @@ impl Landscape {
                 return if self.spec.nan_holes { Some(f64::NAN) } else { None };
             }
         }
-        Some(match self.spec.kind.as_str() {
+        let pit = match self.spec.abyss {
+            Some(depth) if self.spec.kind != "script" && self.spec.kind != "staircase" => {
+                let mut s = ch ^ 0x0f0f_3c3c_a5a5_9696;
+                if (ch == self.start_cell_hash && self.spec.salt & 1 == 1) || (ch != self.start_cell_hash && u01(splitmix64(&mut s)) < 0.3) {
+                    depth
+                } else {
+                    0.0
+                }
+            }
+            _ => 0.0,
+        };
+        Some(-pit + match self.spec.kind.as_str() {
             "peak" => {
                 let mut s = 0.0;
                 for i in 0..p.len() {
@@ -413,6 +430,15 @@ impl Landscape {
     }
     /// scripted decision for evaluation k (accept probability = spec.quantum)
     pub fn script_accept(&self, k: u64) -> bool {
+        // phased scripts (ladder = [L, M]): L evaluations that are all announced worse, then M
+        // evaluations accepted with the scripted probability, and again - long rejection streaks
+        // followed by recoveries, which random rejection rates never produce
+        if self.spec.ladder.len() == 2 {
+            let (l, m) = (self.spec.ladder[0] as u64, (self.spec.ladder[1] as u64).max(1));
+            if (k.saturating_sub(1)) % (l + m) < l {
+                return false;
+            }
+        }
         u01(h3(self.spec.salt, k, 21)) < self.spec.quantum
     }
     pub fn rung_of(&self, i: usize) -> f64 {
@@ -758,6 +784,7 @@ pub fn gen_land_general(rng: &mut Rng, allow_script: bool) -> LandSpec {
             cliff: None,
             holes: 0.0,
             nan_holes: false,
+            abyss: None,
         };
     }
     LandSpec {
@@ -770,5 +797,6 @@ pub fn gen_land_general(rng: &mut Rng, allow_script: bool) -> LandSpec {
         cliff: *rng.pick(&[None, None, None, Some(0.3), Some(0.05), Some(0.0)]),
         holes: *rng.pick(&[0.0, 0.0, 0.1, 0.5, 0.9]),
         nan_holes: false,
+        abyss: *rng.pick(&[None, None, None, None, None, None, None, Some(1e16), Some(1e20), Some(1e300)]),
     }
 }
